@@ -94,6 +94,30 @@ def gen_cases(tier, seed):
         explicit = None
         if mode == 'explicit':
             explicit = r.sample(pool, r.randint(0, 3))
+        if r.random() < 0.1:
+            # two resolvable pairs, every remaining index also on a remainder
+            # tensor, and explicitly given targets that occur twice (a delta
+            # between two of them must survive the delta evaluation)
+            allp = pools[space]
+            x, y, a, b = r.sample(allp, 4)
+            c = r.choice([s_ for s_ in allp if s_ not in (x, y)])
+            d = r.choice([s_ for s_ in allp if s_ not in (x, y)])
+            first = r.random() < 0.5
+            objs = []
+            for sh, rest in ((x, (a, b)), (y, (c, d))):
+                for z in rest:
+                    up = [sh, z] if first else [z, sh]
+                    o = {'t': kind, 'name': 'U', 'up': up}
+                    if kind == 'anti':
+                        o = {'t': 'anti', 'name': 'U', 'up': up[:1],
+                             'lo': up[1:], 'bk': 0}
+                    objs.append(o)
+            objs.append({'t': 'non', 'name': 'x', 'up': [a, b]})
+            objs.append({'t': 'non', 'name': 'y', 'up': [c, d]})
+            terms = [{'pref': r.choice(['1', '-1', '1/2']), 'objs': objs}]
+            mode = 'explicit'
+            explicit = r.choice([[c, d], [a, b], [a], [c, d, a], []])
+            explicit = list(dict.fromkeys(explicit))
         if r.random() < 0.08:
             # closed ring  U_{x0 y0} U_{x1 y0} U_{x1 y1} U_{x2 y1} ... : every
             # index is contracted and occurs on U only; the value is the trace of
